@@ -594,7 +594,7 @@ impl Prop for C19 {
         "C19"
     }
     fn cases(&self) -> (u64, u64) {
-        (100_000, 2_000_000)
+        (400_000, 2_000_000)
     }
     fn rule(&self) -> &'static str {
         "choice bytes -> an adjacent group (flag + 1-3 positionals, argument + 1-2 positionals, flag \
